@@ -468,6 +468,7 @@ func c20Scenarios(tier string) []*Scenario {
 		out = append(out, c20Scenario(c20P{Items: []string{"connerr", "cancel"}}, Bounds{1, 1, 0}), c20Scenario(c20P{Items: []string{"conn1", "connerr"}}, Bounds{1, 1, 0}))
 		out = append(out, c20Scenario(c20P{Items: []string{"conn1", "fail-temp"}}, Bounds{1, 1, 0}), c20Scenario(c20P{Items: []string{"fail-temp"}}, Bounds{1, 1, 0}))
 		out = append(out, c20Scenario(c20P{Items: []string{"conn1", "conn2", "cancel"}}, Bounds{1, 1, 0}))
+		out = append(out, c20Scenario(c20P{Items: []string{"conn1", "conn2"}}, Bounds{1, 1, 1})) // with one environment deviation
 		out = append(out, c20Scenario(c20P{Items: []string{"conn1", "connfail", "cancel"}}, Bounds{1, 1, 0}))
 		out = append(out, c20Net(Bounds{2, -1, 0}))
 	} else {
